@@ -5,9 +5,15 @@ from common import Reporter, SEED
 import engines as E, menus as M
 
 
+ALL_PURPOSE_DIALECTS = ["cy-GB", "en-Scouse", "mk-Cyrl", "sr-Latn", "zh-CN", "zh-TW", "fr", "em", "ht", "en-old", "ru", "ar", "ja", "en-tx", "sl", "af", "nl"]
+
+
 def std_sources(tier, n_quick, n_thorough, dialects=None):
+    """The standard families every trace-based check validates: acceptance corpus, limit / look-ahead / state-leaving documents, generated
+    English documents, noisy mutations of them, and generated documents in other dialects (by header and as the matcher's default)."""
     n = n_quick if tier == "quick" else n_thorough
-    return E.src_corpus() + E.src_limits() + E.src_generated(n, SEED, dialects) + E.src_noisy(n, SEED)
+    return (E.src_corpus() + E.src_limits() + E.src_generated(n, SEED, dialects) + E.src_noisy(n, SEED)
+            + (E.src_generated(max(20, n // 6), SEED + 11, ALL_PURPOSE_DIALECTS) if dialects is None else []))
 
 
 def c03(tier, rep):
